@@ -169,7 +169,8 @@ type world struct {
 	refs   map[Sp]rt.Value
 	names  map[any]Sp
 	driver rt.Value
-	events [][]rt.Value
+	flat   []rt.Value // observations: records of 3 values (tag, a, b)
+	recs   [][]rt.Value
 	tooBig bool
 	// the pool as golua values (same order as poolKeys)
 	poolVals []rt.Value
@@ -188,11 +189,29 @@ func (w *world) init() {
 	*w = world{s: harness.NewSession(), refs: map[Sp]rt.Value{}, names: map[any]Sp{}}
 	r := w.s.R
 	r.SetEnvGoFunc(r.GlobalEnv(), "obs", func(t *rt.Thread, c *rt.GoCont) (rt.Cont, error) {
-		if len(w.events) >= 400000 {
+		if len(w.flat) >= 3*400000 {
 			w.tooBig = true
 			return nil, fmt.Errorf("too many observations")
 		}
-		w.events = append(w.events, append([]rt.Value(nil), c.Etc()...))
+		etc := c.Etc()
+		if len(etc) == 2 {
+			// a buffer of records and its fill count
+			if buf, ok := etc[0].TryTable(); ok {
+				n, _ := etc[1].TryInt()
+				for i := int64(1); i <= n; i++ {
+					w.flat = append(w.flat, buf.Get(rt.IntValue(i)))
+				}
+				return c.Next(), nil
+			}
+		}
+		// one record given directly
+		for i := 0; i < 3; i++ {
+			if i < len(etc) {
+				w.flat = append(w.flat, etc[i])
+			} else {
+				w.flat = append(w.flat, rt.NilValue)
+			}
+		}
 		return c.Next(), nil
 	}, 0, true).SolemnlyDeclareCompliance(rt.ComplyCpuSafe | rt.ComplyMemSafe | rt.ComplyIoSafe | rt.ComplyTimeSafe)
 	fns, err := w.s.Load("refs", `
@@ -236,6 +255,16 @@ func (w *world) init() {
 	for _, k := range poolKeys {
 		w.poolVals = append(w.poolVals, w.val(k))
 	}
+}
+
+// records returns the observations as records of 3 values.
+func (w *world) records() [][]rt.Value {
+	n := len(w.flat) / 3
+	w.recs = w.recs[:0]
+	for i := 0; i < n; i++ {
+		w.recs = append(w.recs, w.flat[3*i:3*i+3])
+	}
+	return w.recs
 }
 
 func (w *world) val(s Sp) rt.Value {
